@@ -16,7 +16,7 @@ import (
 type dImpl[T any] struct {
 	c   codec[T]
 	big bool
-	l   [2]*listz.DList[T]
+	l   []*listz.DList[T] // two or three lists sharing the node handles
 	h   []*listz.DNode[T] // handle id -> node; ids 0,1 are the sentinels (never used as handles)
 	ids map[*listz.DNode[T]]int
 }
@@ -195,9 +195,30 @@ func (d *dImpl[T]) dumpBig(l *listz.DList[T]) string {
 
 func (d *dImpl[T]) dumpAll() string {
 	if d.big {
-		return d.dumpBig(d.l[0]) + " | " + d.dumpBig(d.l[1])
+		return joinDumps(len(d.l), func(i int) string { return d.dumpBig(d.l[i]) })
 	}
-	return d.dump(d.l[0]) + " | " + d.dump(d.l[1])
+	return joinDumps(len(d.l), func(i int) string { return d.dump(d.l[i]) })
+}
+
+func joinDumps(n int, f func(int) string) string {
+	var s []string
+	for i := 0; i < n; i++ {
+		s = append(s, f(i))
+	}
+	return strings.Join(s, " | ")
+}
+
+// nLists: number of lists named by the header tokens after `dlist` (kinds z|n), 0 if malformed.
+func nLists(h []string) (int, bool) {
+	n := 0
+	for n < len(h) && (h[n] == "z" || h[n] == "n") {
+		n++
+	}
+	rest := h[n:]
+	if (n != 2 && n != 3) || !(len(rest) == 0 || len(rest) == 1 && rest[0] == "big") {
+		return 0, false
+	}
+	return n, len(rest) == 1
 }
 
 func listIdx(t string) int {
@@ -206,6 +227,8 @@ func listIdx(t string) int {
 		return 0
 	case "B":
 		return 1
+	case "C":
+		return 2
 	}
 	return -1
 }
@@ -231,24 +254,21 @@ func implD(c core.Case) []string {
 
 func implDT[T any](c core.Case, cd codec[T]) []string {
 	d := &dImpl[T]{c: cd, ids: map[*listz.DNode[T]]int{}}
-	d.h = []*listz.DNode[T]{nil, nil}
 	return core.RunOps(c,
 		func(hdr []string) string {
 			hdr = dropTy(hdr)
-			if len(hdr) == 4 && hdr[3] == "big" {
-				d.big = true
-			} else if len(hdr) != 3 {
+			n, big := nLists(hdr[1:])
+			if n == 0 {
 				return "bad-op"
 			}
-			for i := 0; i < 2; i++ {
-				switch hdr[1+i] {
-				case "z":
-					d.l[i] = new(listz.DList[T])
-				case "n":
-					d.l[i] = listz.NewDoubly[T]()
-				default:
-					return "bad-op"
+			d.big = big
+			for i := 0; i < n; i++ {
+				if hdr[1+i] == "z" {
+					d.l = append(d.l, new(listz.DList[T]))
+				} else {
+					d.l = append(d.l, listz.NewDoubly[T]())
 				}
+				d.h = append(d.h, nil) // the sentinels take the first ids
 			}
 			return "ok | " + d.dumpAll()
 		},
@@ -263,7 +283,7 @@ func implDT[T any](c core.Case, cd codec[T]) []string {
 
 func (d *dImpl[T]) handle(t string) *listz.DNode[T] {
 	h, err := strconv.Atoi(t)
-	if err != nil || h < 2 || h >= len(d.h) || strings.HasPrefix(t, "+") {
+	if err != nil || h < len(d.l) || h >= len(d.h) || strings.HasPrefix(t, "+") {
 		return nil
 	}
 	return d.h[h]
@@ -279,7 +299,7 @@ func (d *dImpl[T]) wellFormed(t []string) bool {
 		a := t[1+i]
 		switch k {
 		case 'l':
-			if listIdx(a) < 0 {
+			if listIdx(a) < 0 || listIdx(a) >= len(d.l) {
 				return false
 			}
 		case 'v':
@@ -315,7 +335,7 @@ func (d *dImpl[T]) step(t []string) string {
 	}
 	op := t[0]
 	if op == "pushn" || op == "removen" || op == "removebn" {
-		if len(t) != 3 || listIdx(t[1]) < 0 {
+		if len(t) != 3 || listIdx(t[1]) < 0 || listIdx(t[1]) >= len(d.l) {
 			return "bad-op"
 		}
 		k, err := strconv.Atoi(t[2])
@@ -340,7 +360,7 @@ func (d *dImpl[T]) step(t []string) string {
 		return "ok"
 	}
 	if op == "allbody" || op == "walkbody" {
-		if len(t) < 2 || listIdx(t[1]) < 0 {
+		if len(t) < 2 || listIdx(t[1]) < 0 || listIdx(t[1]) >= len(d.l) {
 			return "bad-op"
 		}
 		acts, brk, ok := parseScript(t[2:])
@@ -404,7 +424,7 @@ func (d *dImpl[T]) step(t []string) string {
 		switch k {
 		case 'l':
 			x := listIdx(a)
-			if x < 0 {
+			if x < 0 || x >= len(d.l) {
 				return "bad-op"
 			}
 			ls = append(ls, d.l[x])
@@ -508,7 +528,7 @@ func (d *dImpl[T]) step(t []string) string {
 
 type dRef struct {
 	big bool
-	l   [2]*list.List
+	l   []*list.List
 	h   []*list.Element // handle id -> element (stale elements are kept: container/list guards them itself)
 	id  map[*list.Element]int
 }
@@ -561,9 +581,9 @@ func (d *dRef) dumpBig(l *list.List) string {
 
 func (d *dRef) dumpAll() string {
 	if d.big {
-		return d.dumpBig(d.l[0]) + " | " + d.dumpBig(d.l[1])
+		return joinDumps(len(d.l), func(i int) string { return d.dumpBig(d.l[i]) })
 	}
-	return d.dump(d.l[0]) + " | " + d.dump(d.l[1])
+	return joinDumps(len(d.l), func(i int) string { return d.dump(d.l[i]) })
 }
 
 // live reports whether the element is currently linked into one of the two lists.
@@ -598,12 +618,18 @@ func (d *dRef) rebind(old, nu *list.Element) {
 
 func checkD(c core.Case, out []string) *core.Failure {
 	hdr := dropTy(core.Toks(c.Lines[0]))
-	if len(hdr) != 5 && !(len(hdr) == 6 && hdr[5] == "big") {
+	if len(hdr) < 3 {
 		return nil
 	}
-	d := &dRef{id: map[*list.Element]int{}, big: len(hdr) == 6}
-	d.l[0], d.l[1] = list.New(), list.New()
-	d.h = []*list.Element{nil, nil}
+	nl, big := nLists(hdr[3:])
+	if nl == 0 {
+		return nil
+	}
+	d := &dRef{id: map[*list.Element]int{}, big: big}
+	for i := 0; i < nl; i++ {
+		d.l = append(d.l, list.New())
+		d.h = append(d.h, nil)
+	}
 	want := "ok | " + d.dumpAll()
 	if out[0] != want {
 		return &core.Failure{Key: "dlist-zero-value", Desc: fmt.Sprintf("fresh lists: implementation %q, container/list %q", out[0], want)}
@@ -615,11 +641,11 @@ func checkD(c core.Case, out []string) *core.Failure {
 		v := 0
 		bad := false
 		for _, a := range t[1:] {
-			if x := listIdx(a); x >= 0 {
+			if x := listIdx(a); x >= 0 && x < nl {
 				ls = append(ls, d.l[x])
 			} else if n, err := strconv.Atoi(a); err == nil {
 				v = n
-				if n >= 2 && n < len(d.h) {
+				if n >= nl && n < len(d.h) {
 					hs = append(hs, d.h[n])
 				} else {
 					hs = append(hs, nil)
@@ -653,7 +679,7 @@ func checkD(c core.Case, out []string) *core.Failure {
 		}
 		if t[0] == "setv" { // `setv h v`: the handle is the first integer
 			v, _ = strconv.Atoi(t[2])
-			if n, err := strconv.Atoi(t[1]); err != nil || n < 2 || n >= len(d.h) {
+			if n, err := strconv.Atoi(t[1]); err != nil || n < nl || n >= len(d.h) {
 				return "", false
 			} else {
 				hs = []*list.Element{d.h[n]}
@@ -755,7 +781,7 @@ func checkD(c core.Case, out []string) *core.Failure {
 			return nil
 		}
 		if t[0] == "pushn" || t[0] == "removen" || t[0] == "removebn" {
-			if len(t) != 3 || listIdx(t[1]) < 0 {
+			if len(t) != 3 || listIdx(t[1]) < 0 || listIdx(t[1]) >= nl {
 				return nil
 			}
 			k, err := strconv.Atoi(t[2])
@@ -783,7 +809,7 @@ func checkD(c core.Case, out []string) *core.Failure {
 			continue
 		}
 		if t[0] == "allbody" || t[0] == "walkbody" {
-			if len(t) < 2 || listIdx(t[1]) < 0 {
+			if len(t) < 2 || listIdx(t[1]) < 0 || listIdx(t[1]) >= nl {
 				return nil
 			}
 			acts, brk, ok := parseScript(t[2:])
@@ -798,7 +824,7 @@ func checkD(c core.Case, out []string) *core.Failure {
 					}
 					for j, kd := range sig {
 						if kd == 'h' {
-							if x, err := strconv.Atoi(a[1+j]); err != nil || x < 2 || x >= len(d.h) {
+							if x, err := strconv.Atoi(a[1+j]); err != nil || x < nl || x >= len(d.h) {
 								return nil
 							}
 						}
